@@ -161,6 +161,7 @@ func (r *EntityLocal) AddUseCaseSupport(
 
 	data.AddUseCaseSupport(address, actor, useCaseName, useCaseVersion, useCaseDocumemtSubRevision, useCaseAvailable, scenarios)
 
+	verifYieldLT("UseCase.store")
 	nodeMgmt.SetData(model.FunctionTypeNodeManagementUseCaseData, data)
 }
 
@@ -205,6 +206,7 @@ func (r *EntityLocal) SetUseCaseAvailability(
 
 	data.SetAvailability(address, actor, useCaseName, available)
 
+	verifYieldLT("UseCase.store")
 	nodeMgmt.SetData(model.FunctionTypeNodeManagementUseCaseData, data)
 }
 
@@ -231,6 +233,7 @@ func (r *EntityLocal) RemoveUseCaseSupport(
 
 	data.RemoveUseCaseSupport(address, actor, useCaseName)
 
+	verifYieldLT("UseCase.store")
 	nodeMgmt.SetData(model.FunctionTypeNodeManagementUseCaseData, data)
 }
 
@@ -254,6 +257,7 @@ func (r *EntityLocal) RemoveAllUseCaseSupports() {
 
 	data.RemoveUseCaseDataForAddress(address)
 
+	verifYieldLT("UseCase.store")
 	nodeMgmt.SetData(model.FunctionTypeNodeManagementUseCaseData, data)
 }
 
